@@ -68,7 +68,7 @@ func testCore(algo string, dir string) *Core {
 		// a data mule running epidemic routing underneath; peer 1 is a sensor node
 		conf.SensorMuleConf = SensorNetworkMuleConfig{Algorithm: &RoutingConf{Algorithm: "epidemic"}, SensorNodeRegex: "^dtn://peer1/"}
 	}
-	conf.SprayConf.Multiplicity = 3
+	conf.SprayConf.Multiplicity = uint64(verif.Param("mult", 3))
 	conf.DTLSRConf = DTLSRConfig{RecomputeTime: "30s", BroadcastTime: "30s", PurgeTime: "10m"}
 	conf.ProphetConf = ProphetConfig{PInit: 0.75, Beta: 0.25, Gamma: 0.98, AgeInterval: "1m"}
 	c, err := NewCore(dir, bpv7.MustNewEndpointID("dtn://this/"), false, conf, nil)
